@@ -218,7 +218,7 @@ def run(ctx):
         v = r.value
         if isinstance(v, ast.Call) and any(isinstance(a, ast.Starred) for a in v.args) and any(k.arg is None for k in v.keywords):
             okf = True
-        for n in ast.walk(v):
+        for n in repo.walk_with_tables(cc, v):
             if isinstance(n, ast.Dict):
                 keys = {A.const_value(k): A.dotted(val) for k, val in zip(n.keys, n.values)}
     if okf:
